@@ -142,9 +142,17 @@ func Sweep(r *ev.Run, prop string, maxRegions int, builds int) {
 	}
 	c17 := prop == "C17"
 	_ = prop == "C10"
-	for n := 1; n <= maxRegions; n++ {
+	for pass := 0; pass < 2*maxRegions; pass++ {
+		n := pass%maxRegions + 1
 		regions := allRegions[:n]
 		cloud := awskms.NewCloud(regions...)
+		if pass >= maxRegions {
+			// second pass: the keys are configured by alias ARN (KMS answers with the key ARN in KeyId)
+			if n > 2 {
+				continue
+			}
+			cloud.UseAliases()
+		}
 		subs := subsets(regions)
 		for _, wv := range []int{1, 2} {
 			for _, pref := range regions {
@@ -189,7 +197,14 @@ func Sweep(r *ev.Run, prop string, maxRegions int, builds int) {
 								if firstGen != pref {
 									report("wrap-generate-not-preferred-first:v"+fmt.Sprint(wv), "%s: first GenerateDataKey went to %s, not to the preferred region", desc, firstGen)
 								}
-								if canGenerate != (err == nil) {
+								// keys configured by alias: every regional KEK comes from an Encrypt call (see below); when all of
+								// them fail there is nothing to put into the envelope and the wrap has to fail
+								aliasAllEncryptFail := cloud.Regions[regions[0]].Alias != "" && len(failEnc) == len(regions)
+								if aliasAllEncryptFail && canGenerate {
+									if err == nil {
+										report("wrap-succeeded-with-empty-envelope:v"+fmt.Sprint(wv), "%s: EncryptKey reported success although no region could wrap the data key: the envelope %s can never be unwrapped", desc, env)
+									}
+								} else if canGenerate != (err == nil) {
 									report("wrap-success-mismatch:v"+fmt.Sprint(wv), "%s: some region can generate=%v but EncryptKey err=%v", desc, canGenerate, err)
 								}
 								if !bytes.Equal(sk, skCopy) {
@@ -246,10 +261,14 @@ func Sweep(r *ev.Run, prop string, maxRegions int, builds int) {
 								report("envelope-not-json:v"+fmt.Sprint(wv), "%s: %v", desc, jerr)
 								continue
 							}
+							if len(en.KMSKEKs) == 0 {
+								report("wrap-succeeded-with-empty-envelope:v"+fmt.Sprint(wv), "%s: EncryptKey reported success with an envelope that has no regional entry", desc)
+								continue
+							}
 							var got []string
 							for _, k := range en.KMSKEKs {
 								got = append(got, k.Region)
-								if k.ARN != cloud.Regions[k.Region].ARN {
+								if k.ARN != cloud.Regions[k.Region].ConfiguredID() {
 									report("envelope-wrong-arn:v"+fmt.Sprint(wv), "%s: entry for %s carries ARN %s", desc, k.Region, k.ARN)
 								}
 							}
@@ -261,7 +280,22 @@ func Sweep(r *ev.Run, prop string, maxRegions int, builds int) {
 								}
 							}
 							sort.Strings(want)
-							if c17 && strings.Join(got, ",") != strings.Join(want, ",") {
+							aliasGenDropped := false
+							if cloud.Regions[regions[0]].Alias != "" && has(failEnc, gen) {
+								// keys configured by alias: KMS reports the key ARN, so the plug-ins do not recognise the
+								// generating region's own blob and wrap the data key there through Encrypt as well; when that
+								// Encrypt fails the region has no entry. Both outcomes are accepted for that region.
+								var alt []string
+								for _, reg := range want {
+									if reg != gen {
+										alt = append(alt, reg)
+									}
+								}
+								if strings.Join(got, ",") == strings.Join(alt, ",") {
+									aliasGenDropped = true
+								}
+							}
+							if c17 && !aliasGenDropped && strings.Join(got, ",") != strings.Join(want, ",") {
 								report("envelope-entries-mismatch:v"+fmt.Sprint(wv), "%s: envelope has entries for %v, expected exactly the regions that succeeded %v (generated in %s)", desc, got, want, gen)
 							}
 							if r.WantSample() {
@@ -269,7 +303,7 @@ func Sweep(r *ev.Run, prop string, maxRegions int, builds int) {
 							}
 							// ---- unwrap
 							for _, uv := range []int{1, 2} {
-								unwrapAll(r, prop, cloud, regions, subs, uv, wv, env, skCopy, want, desc)
+								unwrapAll(r, prop, cloud, regions, subs, uv, wv, env, skCopy, got, desc)
 							}
 						}
 					}
